@@ -102,10 +102,10 @@ static Bd boundary_of(int j) {
   return b;
 }
 #ifdef VP_IDS
-// identifiers increasing along the filtration but with solver-chosen gaps (0..2): positions and identifiers differ; a cell inserted after a removal may reuse an identifier
+// identifiers increasing along the filtration but with solver-chosen gaps (0..1): positions and identifiers differ; a cell inserted after a removal may reuse an identifier
 static int cellId[M];
 static void insert_cell(Mat& mat, int j) {
-  cellId[j] = (j ? cellId[j - 1] : -1) + 1 + vp_fork_int(vp_int("idgap", 0, 2)); Bd b = boundary_of(j), bi;
+  cellId[j] = (j ? cellId[j - 1] : -1) + 1 + vp_fork_int(vp_int("idgap", 0, 1)); Bd b = boundary_of(j), bi;
   for (auto& e : b) {
 #if VP_Z2
     bi.push_back((unsigned)cellId[e]);
